@@ -181,10 +181,14 @@ func checkGeneratedRaw(l lit, q, p []uint64) []failure {
 
 // runGenerator: the prime generator returns, in each direction, exactly the next prime of the
 // documented form (nothing skipped, nothing outside the half-bit window, nothing repeated).
-func runGenerator(c *eng.Ctx, lr int) {
+func runGenerator(c *eng.Ctx, lr int) { runGeneratorRange(c, lr, lr, 61) }
+
+// runGeneratorRange: the same judgement for the sizes lo..hi (62 and 63 are the sizes above what
+// GenModuli requests; the generator documents no upper limit below 64).
+func runGeneratorRange(c *eng.Ctx, lr, lo, hi int) {
 	nth := uint64(1) << lr
 	sampled := false
-	for b := lr; b <= 61; b++ {
+	for b := lo; b <= hi; b++ {
 		base := uint64(1)<<b + 1
 		for _, dir := range []string{"up", "down", "alt"} {
 			g := ring.NewNTTFriendlyPrimesGenerator(uint64(b), nth)
